@@ -51,6 +51,16 @@ META = {
         text="C09_inv: for every number of processes, every interleaving of their protocol steps and every crash point, every shelf holds exactly the complete fileset it is named after; C09_clean: a returned process leaves no temp dir; C09_fail_adds_nothing; C09_race_loser_succeeds. The transition system is validated against the real cache code by forcing random schedules on goroutines with a barrier in the cache.* hooks.",
         note="Trusted: Lean kernel; freshness of guid names; atomic rename; the unpack tool's contract (C03/C02). Not exhibited: preemption inside a step, power loss.",
     ),
+    "C10": dict(
+        technique="Lean 4 theorems composing the cache invariant (C09) with the placement model + differential test of every route on the real filesystem",
+        text="C10_place_faithful / C10_routes: every placer shows exactly the shelf, so copy, mount and direct-on-warm-cache agree; C10_history_independent: in every reachable cache state the shelf a process places from holds exactly the complete fileset (C09_inv); C10_tie pins the mode -> placer switch (T-fact). The place and rt streams compare every destination with the ware's fileset attribute by attribute (directory mtimes included), check the parent's mtime and the re-pack id, over cold / warm / otherwise-warmed caches and pre-existing destinations.",
+        note="Trusted: Lean kernel; the kernel's bind/overlay visibility (assumption of the placement model, exercised by the stream); attribute-level fidelity of CopyPlacer is correspondence-tested, not proved (partial).",
+    ),
+    "C11": dict(
+        technique="Lean 4 invariant proof over the placement state machine + T-fact dispatch ties + shelf-identity differential test under real mounts",
+        text="C11_inv: for every finite sequence of placements (copy, writable overlay, read-only bind), writes inside placed trees and teardowns, the shelf stays as committed; C11_faithful_again; C11_dispatch_safe: for file and directory shelves no route of cache.place yields a writable bind; C11_counter_rw_bind shows a writable bind would break it; C11_ties pins the dispatch tables, mount flags and overlay options to the code (T-fact). The place stream checks the shelf's content, attributes, inode numbers and link counts after every operation.",
+        note="Trusted: Lean kernel; kernel mount semantics (model assumptions, validated in a private mount namespace on this kernel only); aufs not available.",
+    ),
     "C12": dict(
         technique="Lean 4 theorems (filter = documented per-attribute rule; pack with filter = lossless pack of filtered fileset) + differential correspondence",
         text="C12_pack_entry / C12_reject_iff / C12_only_named / C12_flatten / C12_pack / C12_cli_stack are proved for every filter setting and every entry (no enumeration). The Lean filter functions are compared with filters.Apply*Filter on all complete settings x an entry zoo, and end to end through unpackTar.",
